@@ -993,6 +993,16 @@ mod imp {
 
             Ok(delims)
         }
+
+        /// End delimiters are searched for literally, an empty one cannot be found.
+        fn validate_end_delims(&self) -> Result<(), Error> {
+            if self.variable_end.is_empty() || self.block_end.is_empty() || self.comment_end.is_empty()
+            {
+                Err(ErrorKind::InvalidDelimiter.into())
+            } else {
+                Ok(())
+            }
+        }
     }
 
     /// Builder helper to reconfigure the syntax.
@@ -1073,6 +1083,7 @@ mod imp {
             if *delims == DEFAULT_DELIMS {
                 return Ok(SyntaxConfig::default());
             }
+            ok!(delims.validate_end_delims());
             let aho_corasick = ok!(AhoCorasick::builder()
                 .build(ok!(delims.validated_start_delims()))
                 .map_err(|_| ErrorKind::InvalidDelimiter.into()));
